@@ -11,42 +11,34 @@ fn any_tri(max: usize) -> Tri<usize> {
 }
 
 // @ob props=C14 tier=quick kind=B cfg=core-std timeout=1200
-// @fn Mesh::new ; Builder::build ; Builder::push_face ; Builder::push_vert
-// @bound at most 2 faces and at most 3 vertices, indices up to 4
+// @fn Mesh::new ; Builder::build ; Builder::push_faces ; Builder::push_verts
+// @bound 2 faces, 1 to 3 vertices, indices up to 4
 // @allow_panic Mesh::<.*>::new
 // @clause a mesh can only be built from faces whose indices all refer to existing vertices: whenever Mesh::new / Builder::build return, every face index is < the vertex count, and faces and vertices are stored in the given order
 #[cfg(not(verif_skip_mesh_new_rejects_dangling_indices))]
 #[kani::proof]
-#[kani::unwind(12)]
+#[kani::unwind(40)]
 fn mesh_new_rejects_dangling_indices() {
     let nv: usize = kani::any();
-    let nf: usize = kani::any();
-    kani::assume(nv <= 3 && nf <= 2);
+    kani::assume(nv >= 1 && nv <= 3);
     let faces = [any_tri(4), any_tri(4)];
     let ok = |t: &Tri<usize>| t.0[0] < nv && t.0[1] < nv && t.0[2] < nv;
-    let all_ok = (nf < 1 || ok(&faces[0])) && (nf < 2 || ok(&faces[1]));
-    kani::cover!(all_ok && nf == 2);
+    let all_ok = ok(&faces[0]) && ok(&faces[1]);
+    kani::cover!(all_ok);
     kani::cover!(!all_ok);
-    let mut b: Builder<()> = Mesh::builder();
-    let mut i = 0;
-    while i < nv {
-        b.push_vert(pt3(i as f32, 0.0, 0.0), ());
-        i += 1;
-    }
-    let mut j = 0;
-    while j < nf {
-        b.push_face(faces[j].0[0], faces[j].0[1], faces[j].0[2]);
-        j += 1;
-    }
-    let m = b.build();
+    let verts = [(pt3(0.0, 0.0, 0.0), ()), (pt3(1.0, 0.0, 0.0), ()), (pt3(2.0, 0.0, 0.0), ())];
+    let m = if kani::any() {
+        let mut b: Builder<()> = Mesh::builder();
+        b.push_verts(verts.into_iter().take(nv));
+        b.push_faces([faces[0].0, faces[1].0]);
+        b.build()
+    } else {
+        Mesh::new([Tri(faces[0].0), Tri(faces[1].0)], verts.into_iter().take(nv).map(|(p, a)| vertex(p.to(), a)))
+    };
     assert!(all_ok);
-    assert!(m.faces.len() == nf && m.verts.len() == nv);
-    if nf > 0 {
-        assert!(m.faces[nf - 1].0 == faces[nf - 1].0);
-    }
-    if nv > 0 {
-        assert!(m.verts[nv - 1].pos.x() == (nv - 1) as f32);
-    }
+    assert!(m.faces.len() == 2 && m.verts.len() == nv);
+    assert!(m.faces[0].0 == faces[0].0 && m.faces[1].0 == faces[1].0);
+    assert!(m.verts[nv - 1].pos.x() == (nv - 1) as f32);
 }
 
 // @ob props=C14 tier=quick kind=B cfg=core-std timeout=1200
